@@ -181,6 +181,8 @@ pub struct TowerSys {
     pub http: Option<std::sync::Arc<crate::httpfront::HttpFront>>,
     /// (HTTP status, error code) of the last request sent through the HTTP API
     pub last_http: Option<(u16, u32)>,
+    /// with an HTTP front attached: send and parse with the client plugin's own code (reqwest + ApiResponse<T>)
+    pub use_plugin_client: bool,
 }
 
 fn db_dir() -> PathBuf {
@@ -359,6 +361,7 @@ impl TowerSys {
             dead: false,
             http: None,
             last_http: None,
+            use_plugin_client: false,
         }
     }
 
@@ -777,6 +780,37 @@ impl TowerSys {
             let rt = &self.rt;
             return catch_unwind(AssertUnwindSafe(|| direct(rt, api)));
         };
+        if self.use_plugin_client {
+            use teos_common::net::http::Endpoint;
+            use watchtower_plugin::net::http::{post_request, process_post_response, ApiResponse};
+            let addr = teos_common::net::NetAddr::new(format!("http://127.0.0.1:{}", front.http_port));
+            let ep = match endpoint {
+                "register" => Endpoint::Register,
+                "add_appointment" => Endpoint::AddAppointment,
+                "get_appointment" => Endpoint::GetAppointment,
+                _ => Endpoint::GetSubscriptionInfo,
+            };
+            let r: Result<ApiResponse<Resp>, _> = self.rt.block_on(async { process_post_response(post_request(&addr, ep, req, &None).await).await });
+            self.last_http = None;
+            return match r {
+                Ok(ApiResponse::Response(x)) => Ok(Ok(tonic::Response::new(x))),
+                Ok(ApiResponse::Error(e)) => {
+                    use teos_common::errors as ec;
+                    let grpc = match e.error_code {
+                        x if x == ec::WRONG_FIELD_FORMAT => tonic::Code::InvalidArgument,
+                        x if x == ec::APPOINTMENT_NOT_FOUND => tonic::Code::NotFound,
+                        x if x == ec::APPOINTMENT_ALREADY_TRIGGERED => tonic::Code::AlreadyExists,
+                        x if x == ec::REGISTRATION_RESOURCE_EXHAUSTED => tonic::Code::ResourceExhausted,
+                        x if x == ec::INVALID_SIGNATURE_OR_SUBSCRIPTION_ERROR => tonic::Code::Unauthenticated,
+                        x if x == ec::SERVICE_UNAVAILABLE => tonic::Code::Unavailable,
+                        x if x == ec::UNEXPECTED_ERROR => return Err(Box::new("handler failed behind the HTTP API (error code 255)")),
+                        _ => tonic::Code::Unknown,
+                    };
+                    Ok(Err(tonic::Status::new(grpc, e.error)))
+                }
+                Err(e) => Ok(Err(tonic::Status::new(tonic::Code::DataLoss, format!("client could not use the reply: {e:?}")))),
+            };
+        }
         let body = serde_json::to_vec(req).unwrap();
         let Some(r) = front.post(&format!("/{endpoint}"), &body) else {
             self.last_http = Some((0, 0));
